@@ -233,7 +233,7 @@ _FFDP = ['(result == -1 and forall(lambda j: implies(0 <= j and j < len(self.pro
 callee('m:findFirstDependentPosition', args=['obj'], returns=True, ensures=_FFDP)
 callee('m:allLeaves', args=[], returns='list')
 callee('m:isClockable', args=[], returns=True)
-callee('m:isPropagatable', args=[], returns=True)
+callee('m:isPropagatable', args=[], returns=True, ensures=['(result != 0) == propagatable(self)'])
 callee('m:getOrCreateClockDriverSimulator', args=['drv'], returns=True, modifies=['has:clockDrivers', 'val:clockDrivers'])
 callee('m:addClockable', args=['obj'], modifies=['el:clockables', 'len:clockables'])
 callee('f:getObjectClockDriver!abs', args=['obj'], returns=True)
@@ -272,3 +272,28 @@ hfunc(WF, 'Waveform.clock', ['self'], props=('C15',), uses=['m:Waveform.getwire'
       ensures=['forall(lambda j: implies(0 <= j and j < len(%s), len(items(%s)) == old(len(items(%s))) + 1 and items(%s)[old(len(items(%s)))] == wireof(%s[j]).value))'
                % (_U, _LIST('j'), _LIST('j'), _LIST('j'), _LIST('j'), _U),
                'forall(lambda j, k: implies(0 <= j and j < len(%s) and 0 <= k and k < old(len(items(%s))), items(%s)[k] == old(items(%s)[k])))' % (_U, _LIST('j'), _LIST('j'), _LIST('j'))])
+
+
+# ------------------------------------------------------------------------------------------------- C04: findFirstDependentPosition
+# realsink(u, p, q): the q-th reader port of the wire on the p-th output port of u
+_OP = 'obj.outPorts'
+_RS = lambda p, q: '%s[%s].wire.sinks[%s].parent' % (_OP, p, q)
+_REAL = lambda p, q, hi: '(0 <= %s and %s < %s and %s[%s].wire != None and 0 <= %s and %s < len(%s[%s].wire.sinks) and propagatable(%s))' % (p, p, hi, _OP, p, q, q, _OP, p, _RS(p, q))
+_INS = lambda v: 'exists(lambda k: 0 <= k and k < len(sinks) and sinks[k] == %s)' % v
+hfunc(SIMF, 'Simulator.findFirstDependentPosition', ['self', 'obj'], props=('C04',), uses=['m:isPropagatable', 'acc:getSinks'],
+      requires=[_DISTINCT,
+                # dep(obj, v) is exactly "v is a propagatable block reading a wire driven by an output port of obj"
+                'forall(lambda p, q: implies(%s, dep(obj, %s)))' % (_REAL('p', 'q', 'len(obj.outPorts)'), _RS('p', 'q')),
+                'forall(lambda v: implies(dep(obj, v), exists(lambda p, q: %s and %s == v)))' % (_REAL('p', 'q', 'len(obj.outPorts)'), _RS('p', 'q')),
+                # every propagatable block is in the evaluation list (established by the first loop of topologicalSort)
+                'forall(lambda v: implies(propagatable(v), 0 <= pidx(v) and pidx(v) < len(self.propagatables) and self.propagatables[pidx(v)] == v))'],
+      modifies=[],
+      invariants={
+          0: 'len(sinks) >= 0 and forall(lambda k: implies(0 <= k and k < len(sinks), dep(obj, sinks[k]) and propagatable(sinks[k]))) and '
+             'forall(lambda p, q: implies(%s, %s))' % (_REAL('p', 'q', '_i0'), _INS(_RS('p', 'q'))),
+          1: 'len(sinks) >= 0 and forall(lambda k: implies(0 <= k and k < len(sinks), dep(obj, sinks[k]) and propagatable(sinks[k]))) and '
+             'forall(lambda p, q: implies(%s, %s)) and '
+             'forall(lambda q: implies(0 <= q and q < _i1 and propagatable(sinkPorts[q].parent), %s))'
+             % (_REAL('p', 'q', '_i0'), _INS(_RS('p', 'q')), _INS('sinkPorts[q].parent')),
+          2: '0 <= minPos and minPos < len(self.propagatables) and %s and forall(lambda k: implies(0 <= k and k < _i2, minPos <= pidx(sinks[k])))' % _INS('self.propagatables[minPos]')},
+      ensures=_FFDP)
